@@ -94,6 +94,20 @@ func judgeC13(c *Case, tr *hx.Trace, w *ref.World) []Verdict {
 	return out
 }
 
+// second counted call: its text contains "F.I" but it depends on F.I2 only
+var c13InvalB = []struct {
+	name  string
+	rule  func() *grl.Rule
+	inval bool
+}{
+	{"changed-prefix-named-variable", func() *grl.Rule { return grl.R("vChangedI", grl.Sal(1), "G.K < 1", `Changed("F.I")`, "G.K = 1") }, false},
+	{"forget-prefix-named-variable", func() *grl.Rule { return grl.R("vForgetI", grl.Sal(1), "G.I < 1", `Forget("F.I")`, "G.I = 1") }, false},
+	{"assign-prefix-named-variable", func() *grl.Rule { return grl.R("vAssignI", grl.Sal(2), "F.I < 2", "F.I = F.I + 1") }, false},
+	{"assign-arg", func() *grl.Rule { return grl.R("vAssignI2", grl.Sal(2), "F.I2 < 2", "F.I2 = F.I2 + 1") }, true},
+	{"forget-arg", func() *grl.Rule { return grl.R("vForgetI2", nil, "G.I2 < 1", `Forget("F.I2")`, "G.I2 = 1") }, true},
+	{"changed-object-name", func() *grl.Rule { return grl.R("vChangedG", nil, "G.I8 < 1", `Changed("G.K")`, "G.I8 = 1") }, false},
+}
+
 func C13(rep *ev.Reporter, tier string) {
 	bud := NewBudget(50 * time.Second)
 	maxCycle := uint64(8)
@@ -188,7 +202,57 @@ func C13(rep *ev.Reporter, tier string) {
 			}
 		}
 	}
-	RunFamily(rep, gen, 1500, bud, judgeC13)
-	rep.Coverage["rule"] = "programs in which the counted pure method F.Heavy(F.I) occurs in k=1..3 rules in each of 8 surroundings (alone, left/right of &&, right of ||, inside arithmetic, as a method argument, under negation, in an action right-hand side) together with 0..2 of 6 writer rules (assignment to the argument variable, assignment to a prefix-similar variable, external change + Forget(variable), Forget(call text), Changed(variable), assignment on another object), 2 constants, 2 fact states, every rule order at every cycle. Oracle: between two invalidation events derived from the validated trace (firing of a rule that assigns F.I or calls Forget/Changed naming F.I or the call) the call counter advances by at most 1. Non-trivial: an epoch in which the call was read >=2 times and evaluated once."
+	genB := func(emit func(Case)) {
+		userB := func(i int, si int, c int64) *grl.Rule {
+			sp := c13Surround[si]
+			name := fmt.Sprintf("u%d", i)
+			cond := strings.ReplaceAll(strings.ReplaceAll(sp.cond, "F.Heavy(F.I)", "F.Iheavy(F.I2)"), "%c", fmt.Sprint(c))
+			r := &grl.Rule{Name: name, When: grl.E(cond)}
+			if sp.act != "" {
+				r.Then = append(r.Then, grl.A(strings.ReplaceAll(sp.act, "F.Heavy(F.I)", "F.Iheavy(F.I2)")))
+			}
+			// F.I is a variable the program knows (Forget/Changed of an UNKNOWN name falls back to a
+			// documented textual snippet match, which is not what this family is about)
+			r.Then = append(r.Then, grl.A("F.I16 = F.I"), grl.A(fmt.Sprintf("F.Act(%d)", i)), grl.A(fmt.Sprintf(`Retract("%s")`, name)))
+			return r
+		}
+		var invsB [][]int
+		for a := range c13InvalB {
+			invsB = append(invsB, []int{a})
+			for b := a + 1; b < len(c13InvalB); b++ {
+				invsB = append(invsB, []int{a, b})
+			}
+		}
+		for si, sel := range sels {
+			if len(sel) > 2 {
+				continue
+			}
+			for ii, inv := range invsB {
+				if len(sel)+len(inv) > maxRules {
+					continue
+				}
+				c := facts.HeavyOf(0)
+				var rules []*grl.Rule
+				var shapes, invNames, invKinds []string
+				for i, sx := range sel {
+					rules = append(rules, userB(i+1, sx, c))
+					shapes = append(shapes, c13Surround[sx].name)
+				}
+				for _, v := range inv {
+					r := c13InvalB[v].rule()
+					rules = append(rules, r)
+					invKinds = append(invKinds, c13InvalB[v].name)
+					if c13InvalB[v].inval {
+						invNames = append(invNames, r.Name)
+					}
+				}
+				emit(Case{ID: fmt.Sprintf("c13b/u%d/i%d", si, ii), Rules: rules, Worlds: []func() *ref.World{mkWorld(true)}, WorldNames: []string{"Bt"},
+					Opts: hx.RunOpts{MaxCycle: maxCycle, NoSnapshots: true},
+					Meta: map[string]string{"inval": strings.Join(invNames, ","), "shape": "textual-prefix:" + strings.Join(shapes, "+") + "/" + strings.Join(invKinds, "+")}})
+			}
+		}
+	}
+	RunFamily(rep, func(emit func(Case)) { gen(emit); genB(emit) }, 1500, bud, judgeC13)
+	rep.Coverage["rule"] = "programs in which the counted pure method F.Heavy(F.I) occurs in k=1..3 rules in each of 8 surroundings (alone, left/right of &&, right of ||, inside arithmetic, as a method argument, under negation, in an action right-hand side) together with 0..2 of 6 writer rules (assignment to the argument variable, assignment to a prefix-similar variable, external change + Forget(variable), Forget(call text), Changed(variable), assignment on another object), 2 constants, 2 fact states, every rule order at every cycle; a second family uses the counted call F.Iheavy(F.I2), whose TEXT contains the variable name F.I without depending on it, with writers Changed(F.I) / Forget(F.I) / assignment to F.I (none of which concerns the call) and assignment / Forget of F.I2 (which do). Oracle: between two invalidation events derived from the validated trace (firing of a rule that assigns F.I or calls Forget/Changed naming F.I or the call) the call counter advances by at most 1. Non-trivial: an epoch in which the call was read >=2 times and evaluated once."
 	rep.Assumptions = append(rep.Assumptions, "invalidating rules contain no counted call themselves, so the epoch boundary (their ExecuteRuleEntry) is unambiguous", "the run cap per (program, world) bounds 4-rule programs; capped explorations are reported")
 }
